@@ -150,6 +150,25 @@ func (x *X) BackendHost(subnet, i int) string {
 	return fmt.Sprintf("10.%d.0.%d:80", subnet, i)
 }
 
+// Blocked reports a scheduler error (deadlock, no progress: operations of the workload that
+// never return) for the property that is being checked, whatever else the scenario attributes it
+// to: a check must not pass because the system under test stopped half-way through its workload
+// (the oracles after that point see nothing).
+func (x *X) Blocked(e *simrt.SchedError, scenario string) {
+	if x.Prop == "" {
+		return
+	}
+	x.mu.Lock()
+	for _, v := range x.Violations {
+		if v.Property == x.Prop && strings.Contains(v.Fingerprint, e.Kind) {
+			x.mu.Unlock()
+			return
+		}
+	}
+	x.mu.Unlock()
+	x.Violate(x.Prop, x.Prop+"/workload-blocked{"+e.Kind+","+scenario+"}", "operations of the %s workload never returned: %s", scenario, e.Error())
+}
+
 func (x *X) Fault(kind string) { x.mu.Lock(); x.Faults[kind]++; x.Nontrivial = true; x.mu.Unlock() }
 func (x *X) Probe(name string) { x.mu.Lock(); x.Probes[name]++; x.mu.Unlock() }
 func (x *X) State(parts ...string) {
